@@ -3,7 +3,7 @@
 # current HEAD in the scratch worktree /tmp/wt-port: patch applies, build + suite pass, demo passes without / fails with it, checks catch it.
 sid="$1"; patch="$2"; shift 2
 [ "$patch" = "-" ] && patch=/verif/seeded/$sid/patch.diff
-wt=/tmp/wt-port
+wt=${WT:-/tmp/wt-port}   # scratch worktree (WT=... for parallel shards)
 export GOFLAGS=-mod=mod GOPROXY=off
 [ -d $wt ] || git -C /repo worktree add --detach $wt HEAD >/dev/null 2>&1
 cd $wt || exit 9
